@@ -228,6 +228,10 @@ def app_goldens(rng):
     # DHCPv6 message types above Relay-reply (Leasequery 14, Leasequery-reply 15, ... 17): client/server layout (type + transaction id)
     for mt in (14, 15, 16, 17, 36):
         out.append(("dhcp6_type%d" % mt, "DHCPv6", bytes([mt, 0x0a, 0x0b, 0x0c]) + struct.pack("!HH", 1, 6) + bytes([0, 1, 2, 3, 4, 5]) + struct.pack("!HH", 8, 2) + bytes([0, 9])))
+    # ... and the same types with a transaction id whose low octets read as an option header (00 01 | 00 04 ...), so that a parser
+    # that starts the options two octets early still finds a well-formed message
+    for mt in (14, 15, 17):
+        out.append(("dhcp6_type%d_xid_like_option" % mt, "DHCPv6", bytes([mt, 0x00, 0x00, 0x01, 0x00, 0x04, 0x00, 0x02, 0xaa, 0xbb])))
     # DHCPv6 options of length 0 as well (Rapid Commit, option 14)
     out.append(("dhcp6_rapid_commit", "DHCPv6", bytes([1, 0x12, 0x34, 0x56]) + struct.pack("!HH", 14, 0) + struct.pack("!HH", 8, 2) + bytes([0, 0]) + struct.pack("!HH", 14, 0)))
     # DHCPv6: SOLICIT with client id (DUID-LL), elapsed time, option request, IA_NA with a nested address
